@@ -17,7 +17,7 @@ func c08h(c *ctx) {
 	defer out.Close()
 	shapes := vh.Shapes{}
 	meta := &vh.Meta{Property: "C08", Tier: c.tier, Seed: c.seed,
-		Rule: "records = ping/pong/close x every payload length 0..125 x both sides x 4 entry points (ControlHandler.Handle with masked and pre-unmasked source, ControlFrameHandler, HandleControlMessage and its Client/Server shortcuts); close frames for all 65536 status codes (quick: every 16th + all class boundaries) with a valid reason, an invalid-UTF-8 reason and no reason, plus 1-byte close payloads; distinct = (entry, side, op, payload length class, outcome)"}
+		Rule: "records = ping/pong/close x every payload length 0..125 x both sides x 5 entry points (ControlHandler.Handle with masked and pre-unmasked source, HandlePing/HandlePong/HandleClose called directly, ControlFrameHandler, HandleControlMessage and its Client/Server shortcuts); close frames for all 65536 status codes (quick: every 16th + all class boundaries) with a valid reason, an invalid-UTF-8 reason and no reason, plus 1-byte close payloads; distinct = (entry, side, op, payload length class, outcome)"}
 	n := 0
 	run := func(key, entry, side string, op int, pay []byte) {
 		if !vh.Only(key) {
@@ -45,6 +45,27 @@ func c08h(c *ctx) {
 					src = &vh.ChunkReader{Data: mp, Sizes: []int{7, 1, 64}}
 				}
 				err = wsutil.ControlHandler{Src: src, Dst: dst, State: st}.Handle(h)
+			case "Direct": // the per-opcode methods called by the application itself
+				var src io.Reader = bytes.NewReader(pay)
+				if side == "server" {
+					if len(pay)%3 != 0 { // every third case keeps the all-zero key
+						h.Mask = [4]byte{0x11, byte(op), 0x80, byte(len(pay))}
+					}
+					mp := append([]byte(nil), pay...)
+					for i := range mp {
+						mp[i] ^= h.Mask[i%4]
+					}
+					src = &vh.ChunkReader{Data: mp, Sizes: []int{1, 5, 64}}
+				}
+				ch := wsutil.ControlHandler{Src: src, Dst: dst, State: st}
+				switch op {
+				case 9:
+					err = ch.HandlePing(h)
+				case 10:
+					err = ch.HandlePong(h)
+				default:
+					err = ch.HandleClose(h)
+				}
 			case "HandleNoCipher":
 				err = wsutil.ControlHandler{Src: &vh.ChunkReader{Data: pay, Sizes: []int{3, 50}}, Dst: dst, State: st, DisableSrcCiphering: true}.Handle(h)
 			case "ControlFrameHandler":
@@ -88,7 +109,7 @@ func c08h(c *ctx) {
 			meta.Samples = append(meta.Samples, map[string]interface{}{"key": key, "err": e.Err, "wrote": wrote})
 		}
 	}
-	entries := []string{"Handle", "HandleNoCipher", "ControlFrameHandler", "HandleControlMessage"}
+	entries := []string{"Handle", "HandleNoCipher", "ControlFrameHandler", "HandleControlMessage", "Direct"}
 	for _, side := range []string{"server", "client"} {
 		for _, entry := range entries {
 			for ln := 0; ln <= 125; ln++ {
